@@ -103,6 +103,13 @@ fn bulk_facts<T: Elem>(v: &[T]) -> Value {
         let mut d = Dribble { out: vec![], step };
         stream_ok &= repe::write_message_typed_slice(&mut d, h, b"/bulk", v).is_ok() && d.out == streamed;
     }
+    // whatever body format the caller's header carried (a responder reusing the request's header): the frame is the builder's
+    for bf in [1u16, 2, 3, 77] {
+        let mut h2 = h;
+        h2.body_format = bf;
+        let mut o = vec![];
+        stream_ok &= repe::write_message_typed_slice(&mut o, h2, b"/bulk", v).is_ok() && o == streamed;
+    }
     let dec = m.decode_typed_slice::<T>();
     // a different element type must be rejected, not reinterpreted
     let wrong = {
@@ -146,6 +153,12 @@ fn complex_facts_v<T: Elem>(v: &[Complex<T>]) -> Value {
     for step in [1usize, 3, 7] {
         let mut d = Dribble { out: vec![], step };
         ok &= repe::write_message_complex_slice(&mut d, h, b"/c", v).is_ok() && d.out == streamed;
+    }
+    for bf in [1u16, 2, 3, 77] {
+        let mut h2 = h;
+        h2.body_format = bf;
+        let mut o = vec![];
+        ok &= repe::write_message_complex_slice(&mut o, h2, b"/c", v).is_ok() && o == streamed;
     }
     let flat = |d: &[Complex<T>]| -> Vec<u8> { d.iter().flat_map(|c| [c.re.le(), c.im.le()].concat()).collect() };
     let wrong = if T::KLASS == 0 && T::KODE == 3 { m.decode_complex_slice::<u64>().is_err() } else { m.decode_complex_slice::<f64>().is_err() };
